@@ -1,6 +1,7 @@
-(* C04 — containers of arbitrary nesting depth: List(List(... List(T) ...)) with bounds at every
-   level.  An item is an atom or a list of items; a trait type is an atomic inner trait or a
-   List of a trait type with length bounds.  [validate] is List.validate / the atomic
+(* C04 — containers of arbitrary nesting depth: any nesting of List(...) (bounds at every level) and
+   Dict(K, ...) (atomic keys) over atomic inner traits: List(List(T)), Dict(K, List(T)), Dict(K, Dict(K', V)),
+   List(Dict(K, List(T))), ...  An item is an atom, a list of items or a dict from atoms to items; a trait type is
+   an atomic inner trait, a List of a trait type with length bounds, or a Dict of a key trait and a trait type.  [validate] is List.validate / the atomic
    validator, recursively; [level_step] is one TraitListObject (length guard + TraitList
    method + built-in list) over items with an arbitrary item validator; [deep_step] applies a
    mutator to the list found by following a path of indices from the trait value.
@@ -11,8 +12,20 @@ From TV Require Import Common.PySlice Common.PyList Common.Harness C05.Normalize
 Import ListNotations.
 Local Open Scope Z_scope.
 
-Inductive item := Atom (z : Z) | Lst (l : list item).
-Inductive ttype := TAtom (vk : vkind) | TList (inner : ttype) (mn : Z) (mx : option Z).
+Inductive item := Atom (z : Z) | Lst (l : list item) | Dct (m : list (Z * item)).
+Inductive ttype := TAtom (vk : vkind) | TList (inner : ttype) (mn : Z) (mx : option Z) | TDict (kk : vkind) (vt : ttype).
+
+(* dicts of items: association lists in insertion order *)
+Definition imap := list (Z * item).
+Fixpoint dlookup (k : Z) (m : imap) : option item :=
+  match m with [] => None | (k', v) :: r => if k =? k' then Some v else dlookup k r end.
+Fixpoint dset (k : Z) (v : item) (m : imap) : imap :=
+  match m with
+  | [] => [(k, v)]
+  | (k', v') :: r => if k =? k' then (k, v) :: r else (k', v') :: dset k v r
+  end.
+Definition dremove (k : Z) (m : imap) : imap := filter (fun p => negb (k =? fst p)) m.
+Definition dupdate (ps m : imap) : imap := fold_left (fun acc p => dset (fst p) (snd p) acc) ps m.
 
 Fixpoint mapM {A B} (f : A -> option B) (l : list A) : option (list B) :=
   match l with
@@ -27,22 +40,37 @@ Fixpoint mapM {A B} (f : A -> option B) (l : list A) : option (list B) :=
    item by item through the inner trait) *)
 Fixpoint validate (t : ttype) (x : item) : option item :=
   match t with
-  | TAtom vk => match x with Atom z => option_map Atom (vld_of vk z) | Lst _ => None end
+  | TAtom vk => match x with Atom z => option_map Atom (vld_of vk z) | _ => None end
   | TList inner mn mx =>
       match x with
       | Lst l => if len_ok mn mx (zlen l) then option_map Lst (mapM (validate inner) l) else None
-      | Atom _ => None
+      | _ => None
+      end
+  | TDict kk vt =>                          (* Dict.validate + TraitDictObject.__init__: {kv(k): vv(v) for k, v in items} *)
+      match x with
+      | Dct m =>
+          option_map (fun qs => Dct (dupdate qs []))
+            (mapM (fun p => match vld_of kk (fst p), validate vt (snd p) with
+                            | Some k', Some v' => Some (k', v')
+                            | _, _ => None
+                            end) m)
+      | _ => None
       end
   end.
 
 (* the invariant: every atom in the range of its trait, every list within its bounds, at every depth *)
 Fixpoint wfb (t : ttype) (x : item) : bool :=
   match t with
-  | TAtom vk => match x with Atom z => dom_of vk z | Lst _ => false end
+  | TAtom vk => match x with Atom z => dom_of vk z | _ => false end
   | TList inner mn mx =>
       match x with
       | Lst l => forallb (wfb inner) l && len_ok mn mx (zlen l)
-      | Atom _ => false
+      | _ => false
+      end
+  | TDict kk vt =>
+      match x with
+      | Dct m => forallb (fun p => dom_of kk (fst p) && wfb vt (snd p)) m
+      | _ => false
       end
   end.
 
@@ -56,14 +84,54 @@ Fixpoint item_eqb (a b : item) : bool :=
          | x :: l', y :: m' => item_eqb x y && go l' m'
          | _, _ => false
          end) l m
+  | Dct l, Dct m =>
+      (fix go (l m : list (Z * item)) : bool :=
+         match l, m with
+         | [], [] => true
+         | (k, x) :: l', (k', y) :: m' => (k =? k') && item_eqb x y && go l' m'
+         | _, _ => false
+         end) l m
   | _, _ => false
   end.
 
-(* the mutators of one list level (remove / sort / *= are covered for flat lists by C05.Model) *)
+(* Python == between items (list.remove / list.index): atoms by py_eq, lists element by element; dicts are never
+   compared by the harness (remove / sort are not generated on lists of dicts: dict == ignores the order and dict <
+   raises TypeError), they compare unequal here *)
+Fixpoint item_pyeq (a b : item) : bool :=
+  match a, b with
+  | Atom x, Atom y => py_eq x y
+  | Lst l, Lst m =>
+      (fix go (l m : list item) : bool :=
+         match l, m with
+         | [], [] => true
+         | x :: l', y :: m' => item_pyeq x y && go l' m'
+         | _, _ => false
+         end) l m
+  | _, _ => false
+  end.
+
+(* Python < between items (list.sort): atoms by their order, lists lexicographically (the first position where
+   the items are not ==, else the shorter list); items of different kinds never meet at one level *)
+Fixpoint item_lt (a b : item) : bool :=
+  match a, b with
+  | Atom x, Atom y => x <? y
+  | Lst l, Lst m =>
+      (fix go (l m : list item) : bool :=
+         match l, m with
+         | [], _ :: _ => true
+         | x :: l', y :: m' => if item_pyeq x y then go l' m' else item_lt x y
+         | _, [] => false
+         end) l m
+  | _, _ => false
+  end.
+Definition item_leb (a b : item) : bool := negb (item_lt b a).
+
+(* the mutators of one list level: every mutating method of list *)
 Inductive gop :=
 | GAppend (r : item) | GExtend (rs : list item) | GInsert (i : Z) (r : item)
 | GSetInt (i : Z) (r : item) | GSetSlice (sl : slice) (rs : list item)
-| GDelInt (i : Z) | GDelSlice (sl : slice) | GPop (i : option Z) | GReverse | GClear.
+| GDelInt (i : Z) | GDelSlice (sl : slice) | GPop (i : option Z) | GReverse | GClear
+| GRemove (r : item) | GSort (reverse : bool) | GImul (n : Z).
 
 Definition lres := (res unit * list item * nat)%type.
 Definition lraise (e : exn) (l : list item) : lres := (Raise e, l, 0%nat).
@@ -123,28 +191,95 @@ Section Level.
           end
     | GReverse => lok (rev l) (b2n (nonempty l))
     | GClear => lguard 0 l (lok [] (b2n (nonempty l)))
+    | GRemove r =>                                         (* the raw value is searched with ==, not validated *)
+        lguard (Z.max (len - 1) 0) l
+          match remove item_pyeq l r with Raise e => lraise e l | Ok l' => lok l' 1 end
+    | GSort rv => lok (sort item_leb rv l) (b2n (nonempty l))       (* not overridden by TraitListObject *)
+    | GImul n =>
+        lguard (Z.max 0 (len * n)) l
+          (if n <? 1 then lok (imul l n) (b2n (nonempty l))
+           else lok (imul l n) (b2n (nonempty (skipn (length l) (imul l n)))))
     end.
 End Level.
+
+(* the mutators of one dict level (TraitDict, trait_dict_object.py l.159-344, with a mapping argument for update) *)
+Inductive dgop :=
+| DgSetItem (k : Z) (r : item) | DgUpdate (ps : list (Z * item)) | DgSetDefault (k : Z) (r : item)
+| DgDelItem (k : Z) | DgPop (k : Z) | DgClear.
+
+Definition dres := (res unit * imap * nat)%type.
+Definition draise (e : exn) (m : imap) : dres := (Raise e, m, 0%nat).
+Definition dok (m : imap) (n : nat) : dres := (Ok tt, m, n).
+
+Section DLevel.
+  Variable kvld : Z -> option Z.
+  Variable vvld : item -> option item.
+
+  Definition pair_vld (p : Z * item) : option (Z * item) :=
+    match kvld (fst p), vvld (snd p) with Some k', Some v' => Some (k', v') | _, _ => None end.
+
+  Definition dlevel_step (m : imap) (o : dgop) : dres :=
+    match o with
+    | DgSetItem k r =>
+        match pair_vld (k, r) with None => draise TraitError m | Some (k', y) => dok (dset k' y m) 1 end
+    | DgUpdate ps =>
+        match mapM pair_vld ps with
+        | None => draise TraitError m
+        | Some qs => dok (dupdate qs m) (b2n (nonempty qs))
+        end
+    | DgSetDefault k r =>                            (* raw key containment first *)
+        match dlookup k m with
+        | Some _ => dok m 0
+        | None => match pair_vld (k, r) with None => draise TraitError m | Some (k', y) => dok (dset k' y m) 1 end
+        end
+    | DgDelItem k | DgPop k =>
+        match dlookup k m with Some _ => dok (dremove k m) 1 | None => draise OtherError m end    (* KeyError *)
+    | DgClear => dok [] (b2n (nonempty m))
+    end.
+End DLevel.
 
 (* observation: outcome, the whole trait value afterwards, number of notifications *)
 Record dpobs := mkDP { dp_out : res unit; dp_after : item; dp_events : nat }.
 
+(* one step of a path: the j-th item of a list, or the value at a (raw) key of a dict *)
+Inductive pelem := PIdx (j : nat) | PKey (k : Z).
+(* the mutator applied at the end of the path: of a list or of a dict *)
+Inductive nodeop := OnList (g : gop) | OnDict (d : dgop).
+
 Inductive dpop :=
-| DPath (path : list nat) (o : gop)        (* a mutator of the list reached from the value by these indices *)
+| DPath (path : list pelem) (o : nodeop)   (* a mutator of the container reached from the value by this path *)
 | DPAssign (x : item).                      (* whole-value assignment *)
 
-Fixpoint path_step (t : ttype) (x : item) (path : list nat) (o : gop) : dpobs :=
-  match t, x with
-  | TList inner mn mx, Lst l =>
-      match path with
-      | [] => let '(out, l', n) := level_step (validate inner) mn mx l o in mkDP out (Lst l') n
-      | j :: p =>
+Definition bad_path (x : item) : dpobs := mkDP (Raise TypeError) x 0.   (* the harness never leaves the containers *)
+
+Fixpoint path_step (t : ttype) (x : item) (path : list pelem) (o : nodeop) : dpobs :=
+  match path with
+  | [] =>
+      match t, x, o with
+      | TList inner mn mx, Lst l, OnList g =>
+          let '(out, l', n) := level_step (validate inner) mn mx l g in mkDP out (Lst l') n
+      | TDict kk vt, Dct m, OnDict d =>
+          let '(out, m', n) := dlevel_step (vld_of kk) (validate vt) m d in mkDP out (Dct m') n
+      | _, _, _ => bad_path x
+      end
+  | PIdx j :: p =>
+      match t, x with
+      | TList inner mn mx, Lst l =>
           match nth_error l j with
           | None => mkDP (Raise IndexError) x 0
           | Some y => let ob := path_step inner y p o in mkDP (dp_out ob) (Lst (set_nth j (dp_after ob) l)) (dp_events ob)
           end
+      | _, _ => bad_path x
       end
-  | _, _ => mkDP (Raise TypeError) x 0      (* the path leaves the lists: the harness never does that *)
+  | PKey k :: p =>
+      match t, x with
+      | TDict kk vt, Dct m =>
+          match dlookup k m with
+          | None => mkDP (Raise OtherError) x 0          (* KeyError *)
+          | Some y => let ob := path_step vt y p o in mkDP (dp_out ob) (Dct (dset k (dp_after ob) m)) (dp_events ob)
+          end
+      | _, _ => bad_path x
+      end
   end.
 
 Definition deep_step (t : ttype) (x : item) (o : dpop) : dpobs :=
@@ -163,11 +298,12 @@ Fixpoint deep_run (t : ttype) (x : item) (ops : list dpop) : list (dpop * dpobs)
 Definition accb (t : ttype) (r : item) : bool := match validate t r with Some _ => true | None => false end.
 
 (* the trait type of the list a path leads to *)
-Fixpoint type_at (t : ttype) (path : list nat) : option ttype :=
+Fixpoint type_at (t : ttype) (path : list pelem) : option ttype :=
   match path, t with
   | [], _ => Some t
-  | _ :: p, TList inner _ _ => type_at inner p
-  | _ :: _, TAtom _ => None
+  | PIdx _ :: p, TList inner _ _ => type_at inner p
+  | PKey _ :: p, TDict _ vt => type_at vt p
+  | _ :: _, _ => None
   end.
 
 Definition g_offered (o : gop) : list item :=
@@ -176,15 +312,37 @@ Definition g_offered (o : gop) : list item :=
   | GExtend rs | GSetSlice _ rs => rs
   | _ => []
   end.
+(* the pairs a dict mutator validates (setdefault on a present raw key validates nothing) *)
+Definition d_offered_pairs (m : imap) (d : dgop) : list (Z * item) :=
+  match d with
+  | DgSetItem k r => [(k, r)]
+  | DgUpdate ps => ps
+  | DgSetDefault k r => match dlookup k m with Some _ => [] | None => [(k, r)] end
+  | _ => []
+  end.
+(* the container a path leads to *)
+Fixpoint item_at (x : item) (path : list pelem) : option item :=
+  match path, x with
+  | [], _ => Some x
+  | PIdx j :: p, Lst l => match nth_error l j with Some y => item_at y p | None => None end
+  | PKey k :: p, Dct m => match dlookup k m with Some y => item_at y p | None => None end
+  | _ :: _, _ => None
+  end.
 
 (* clause 5: every raw item offered is acceptable to the item trait of the addressed list, else something is raised *)
-Definition offered_ok (t : ttype) (o : dpop) : bool :=
+Definition offered_ok (t : ttype) (before : item) (o : dpop) : bool :=
   match o with
   | DPAssign r => accb t r
-  | DPath path g =>
+  | DPath path (OnList g) =>
       match type_at t path with
       | Some (TList inner _ _) => forallb (accb inner) (g_offered g)
       | _ => true
+      end
+  | DPath path (OnDict d) =>
+      match type_at t path, item_at before path with
+      | Some (TDict kk vt), Some (Dct m) =>
+          forallb (fun p => acc_of kk (fst p) && accb vt (snd p)) (d_offered_pairs m d)
+      | _, _ => true
       end
   end.
 
@@ -193,7 +351,7 @@ Definition law_deep_step (t : ttype) (before : item) (o : dpop) (ob : dpobs) : l
   chk 1 (negb (wfb t before) || wfb t (dp_after ob))
   ++ chk 3 (negb (is_trait_error (dp_out ob)) || same)
   ++ chk 4 (negb (is_raise (dp_out ob)) || same)
-  ++ chk 5 (offered_ok t o || is_raise (dp_out ob)).
+  ++ chk 5 (offered_ok t before o || is_raise (dp_out ob)).
 
 Fixpoint law_deep_hist (t : ttype) (i : Z) (before : item) (h : list (dpop * dpobs)) : list Z :=
   match h with
